@@ -209,6 +209,11 @@ fn me() -> usize {
     TID.with(|t| t.get())
 }
 
+/// Identifier of the calling daemon thread (0 main, 1 poller, 2 writer; usize::MAX: not a daemon thread).
+pub fn current_tid() -> usize {
+    me()
+}
+
 /// Yield at a scheduling point; Err(()) if the execution is being torn down.
 fn point(op: Op) -> Result<(), ()> {
     let me = me();
